@@ -95,6 +95,11 @@ var arrFns = []struct {
 	{"in_array_keys", []string{"array_key_first", "array_key_last"}, `array_key_first(["q"=>1,"b"=>2,"z"=>3]) . array_key_last(["q"=>1,"b"=>2,"z"=>3])`},
 	{"array_sum_product", []string{"array_sum"}, `array_sum(["q"=>1,"b"=>2,"z"=>3])`},
 	{"implode_assoc", []string{"implode"}, `implode(",", ["q"=>"x","b"=>"y","z"=>"w"])`},
+	// sort flags: under SORT_NUMERIC several keys compare equal ("07" and "7"; every non-numeric key is 0)
+	{"ksort_numeric_ties", []string{"ksort"}, `(function() { $a = ["x"=>1,"07"=>2,"y"=>3,"7"=>4,"b"=>5]; ksort($a, SORT_NUMERIC); return json_encode($a); })()`},
+	{"krsort_numeric_ties", []string{"krsort"}, `(function() { $a = ["x"=>1,"07"=>2,"y"=>3,"7"=>4,"b"=>5]; krsort($a, SORT_NUMERIC); return json_encode($a); })()`},
+	{"ksort_string_flag", []string{"ksort"}, `(function() { $a = ["x"=>1,"07"=>2,"y"=>3,"7"=>4,"b"=>5]; ksort($a, SORT_STRING); return json_encode($a); })()`},
+	{"uksort_ties", []string{"uksort"}, `(function() { $a = ["x"=>1,"07"=>2,"y"=>3,"7"=>4,"b"=>5]; uksort($a, function($p, $q) { return (int)$p - (int)$q; }); return json_encode($a); })()`},
 	{"ksort", []string{"ksort"}, `(function() { $a = ["q"=>1,"b"=>2,"z"=>3,"a"=>4]; ksort($a); return json_encode($a); })()`},
 	{"asort_ties", []string{"asort"}, `(function() { $a = ["q"=>1,"b"=>1,"z"=>0,"a"=>1,"m"=>0]; asort($a); return json_encode($a); })()`},
 	{"arsort_ties", []string{"arsort"}, `(function() { $a = ["q"=>1,"b"=>1,"z"=>0,"a"=>1,"m"=>0]; arsort($a); return json_encode($a); })()`},
